@@ -215,9 +215,10 @@ def _mk_class(cls):
         c.ensure("stores_refrac", r1.f == er)
         c.ensure("invariant_refrac_range", z3.And(r1.f >= 0, r1.f <= z["refrac_t"]))
         attr = c.getattr(n, "spike")
-        c.ensure("spike_attribute_equals_last_output", attr.f == sp.f)
-        # the known finding D22 is confined to refrac_t = 0: outside that witness class the clause must hold
+        # the known finding D22 is confined to refrac_t = 0: outside that witness class the clause must hold (stated first so
+        # that a change breaking it for refrac_t > 0 is never mistaken for the recorded finding)
         c.ensure("spike_attribute_equals_last_output_when_refrac_t_positive", z3.Implies(z["refrac_t"] > 0, attr.f == sp.f))
+        c.ensure("spike_attribute_equals_last_output", attr.f == sp.f)
         c.canary("canary_voltage_unchanged", v1.f == V.f)
 
     @contract(P, f"{cls}.clear", [(file, f"{cls}.clear")], tags=("class",))
